@@ -396,6 +396,46 @@ fn c07_guard_notifies_exactly_once_on_drop() {
     core::mem::forget(mock);
 }
 
+static SOLE_DISCONNECTS: std::sync::atomic::AtomicUsize = std::sync::atomic::AtomicUsize::new(0);
+static SOLE_LAST_CONN: std::sync::atomic::AtomicU64 = std::sync::atomic::AtomicU64::new(u64::MAX);
+
+#[derive(Debug)]
+struct StaticCountingAccess;
+impl DynAccessControl for StaticCountingAccess {
+    fn on_connect<'a>(&'a self, _request: &'a ClientRequest) -> Pin<Box<dyn std::future::Future<Output = Access> + Send + 'a>> {
+        Box::pin(std::future::ready(Access::Allow))
+    }
+    fn on_disconnect(&self, _endpoint_id: iroh_base::EndpointId, connection_id: crate::server::ConnectionId) {
+        use std::sync::atomic::Ordering::Relaxed;
+        SOLE_DISCONNECTS.fetch_add(1, Relaxed);
+        SOLE_LAST_CONN.store(connection_id.verif_raw(), Relaxed);
+    }
+}
+
+/// C07 (guard kernel): the disconnect is reported even when the guard is the *only* remaining
+/// holder of the access policy (the embedder has released its own handles): the guard keeps
+/// the policy alive until it has notified it.
+#[kani::proof]
+#[kani::unwind(40)]
+#[kani::stub(vs::curve25519_dalek::edwards::CompressedEdwardsY::decompress, vs::decompress_all_valid)]
+fn c07_guard_notifies_when_sole_owner_of_policy() {
+    use std::sync::atomic::Ordering::Relaxed;
+    let key = vs::key_from([0u8; 32]);
+    let (parts, _) = http::Request::new(()).into_parts();
+    let request = ClientRequest::new(key, crate::http::ProtocolVersion::V2, parts);
+    let conn_id = request.connection_id().verif_raw();
+    let guard = {
+        let access: Arc<dyn DynAccessControl> = Arc::new(StaticCountingAccess);
+        OnDisconnectGuard::for_access_control(access, &request)
+        // every other handle to the policy is gone here
+    };
+    assert!(SOLE_DISCONNECTS.load(Relaxed) == 0);
+    drop(guard);
+    assert!(SOLE_DISCONNECTS.load(Relaxed) == 1);
+    assert!(SOLE_LAST_CONN.load(Relaxed) == conn_id);
+    core::mem::forget(request);
+}
+
 /// C07: connection ids are fresh: two requests get distinct, increasing ids.
 #[kani::proof]
 #[kani::unwind(40)]
